@@ -5,10 +5,10 @@ From FV Require Import Common.EventLog Seq.SlotModel Seq.SlotProofs Seq.VectorMo
   Seq.IListModel Seq.IListProofs.
 Import ListNotations.
 
-Lemma vector_refines_list : forall esz ops, ref_ok rs0 ops ->
+Lemma vector_refines_list : forall esz veq ops, ref_ok veq rs0 ops ->
   exists st evs,
-    vrun esz vst0 ops = Ok (st, snd (ref_run rs0 ops), evs) /\
-    forall r, let l := fst (ref_run rs0 ops) r in
+    vrun esz veq vst0 ops = Ok (st, snd (ref_run veq rs0 ops), evs) /\
+    forall r, let l := fst (ref_run veq rs0 ops) r in
       size (regs st r) = length l /\
       (empty (regs st r) = true <-> l = []) /\
       iterate (regs st r) = map Some l /\
@@ -16,7 +16,7 @@ Lemma vector_refines_list : forall esz ops, ref_ok rs0 ops ->
       (l <> [] -> front (regs st r) = Ok (hd 0%N l) /\ back (regs st r) = Ok (last l 0%N)) /\
       length (v_cells (regs st r)) = v_cap (regs st r).
 Proof.
-  intros esz ops K. destruct (vrun_refines esz ops vst0 rs0 vrel0 K) as (st & e & H & R).
+  intros esz veq ops K. destruct (vrun_refines esz veq ops vst0 rs0 vrel0 K) as (st & e & H & R).
   exists st, e. split; [exact H|]. intros r. apply (observers _ _ (R r)).
 Qed.
 
@@ -54,6 +54,13 @@ Proof.
   intros esz ops K. destruct (drun_refines esz ops dst0 rs0 drel0 K) as (st & e & H & R).
   exists st, e. split; [exact H|]. intros r. apply (da_observers _ _ (R r)).
 Qed.
+
+(* == is list equality under the element type's operator==; it is Leibniz list equality exactly when the
+   element equality is *)
+Lemma vector_eq_is_list_equality : forall veq a b,
+  (list_eqb veq a b = true <-> length a = length b /\ forall i, i < length a -> veq (nth i a 0%N) (nth i b 0%N) = true) /\
+  ((forall x y, veq x y = true <-> x = y) -> (list_eqb veq a b = true <-> a = b)).
+Proof. intros veq a b. split; [apply list_eqb_spec | intros H; now apply list_eqb_eq]. Qed.
 
 Lemma dyn_array_empty : forall d, da_empty d = true <-> da_size d = 0.
 Proof. intros d. unfold da_empty, da_size. apply Nat.eqb_eq. Qed.
@@ -114,8 +121,8 @@ Lemma owned_storage_only :
   (forall b i v, rd b i = Ok v -> i < length b /\ nth_error b i = Some (Some v)) /\
   (forall b i v b', construct b i v = Ok b' -> i < length b /\ nth_error b i = Some None) /\
   (forall b i b', destroy b i = Ok b' -> i < length b /\ exists v, nth_error b i = Some (Some v)) /\
-  (forall esz ops, ref_ok rs0 ops ->
-     exists st outs evs, vrun esz vst0 ops = Ok (st, outs, evs) /\
+  (forall esz veq ops, ref_ok veq rs0 ops ->
+     exists st outs evs, vrun esz veq vst0 ops = Ok (st, outs, evs) /\
        forall r, length (v_cells (regs st r)) = v_cap (regs st r) /\ v_size (regs st r) <= v_cap (regs st r)) /\
   (forall esz NI ops, sref_ok rs0 ops ->
      srun esz NI (sst0 NI) ops = AssertStop \/
@@ -127,7 +134,7 @@ Proof.
   - intros b i v H. apply rd_ok in H. split; [eapply nth_error_in_bounds; eauto | exact H].
   - intros b i v b' H. apply construct_ok in H. destruct H as [H _]. split; [eapply nth_error_in_bounds; eauto | exact H].
   - intros b i b' H. apply destroy_ok in H. destruct H as [[v H] _]. split; [eapply nth_error_in_bounds; eauto | eauto].
-  - intros esz ops K. destruct (vrun_refines esz ops vst0 rs0 vrel0 K) as (st & e & H & R).
+  - intros esz veq ops K. destruct (vrun_refines esz veq ops vst0 rs0 vrel0 K) as (st & e & H & R).
     do 3 eexists. split; [exact H|]. intros r. destruct (R r) as (Hs & Hc & Hcells). split.
     + rewrite Hcells. now apply slots_length.
     + lia.
